@@ -47,27 +47,6 @@ def resStrategyOf (s : String) : Except String ResStrategy :=
   | "freq_z_exp" => pure .freqZExp
   | _ => throw s!"C13: unknown resonator strategy {s}"
 
-def lowpassContractOf (st : Strategy) (c : Float) : Contract Float :=
-  match st with
-  | .pole => lowpassContract c
-  | .z => lowpassContract c
-  | .poleExp => lowpassExpContract (Float.exp (-c))
-  | .zExp => lowpassExpContract (Float.exp (c - floatPi))
-
-def highpassContractOf (st : Strategy) (c : Float) : Contract Float :=
-  match st with
-  | .pole => highpassContract c
-  | .z => highpassContract c
-  | .poleExp => highpassExpContract (Float.exp (c - floatPi))
-  | .zExp => highpassExpContract (Float.exp (-c))
-
-def resonatorContractOf (st : ResStrategy) (f bw : Float) : Contract Float :=
-  match st with
-  | .polesExp => resonatorContract f bw
-  | .zExp => resonatorContract f bw
-  | .freqPolesExp => resonatorFreqContract f bw false
-  | .freqZExp => resonatorFreqContract f bw true
-
 def design (s : Coefs Float) (c : Contract Float) : Json :=
   Json.mkObj [("model", coefsJson s), ("spec", contractJson c), ("measured", measuredJson s c)]
 
@@ -86,16 +65,16 @@ def handleOne (entry : String) (j : Json) : Except String Json := do
   | "lowpass" =>
     let st ← strategyOf (← getStr (← field j "strategy"))
     let c ← getFloat (← field j "cutoff")
-    pure <| design (lowpass st c) (lowpassContractOf st c)
+    pure <| design (lowpass st c) (lowpassSpec st c)
   | "highpass" =>
     let st ← strategyOf (← getStr (← field j "strategy"))
     let c ← getFloat (← field j "cutoff")
-    pure <| design (highpass st c) (highpassContractOf st c)
+    pure <| design (highpass st c) (highpassSpec st c)
   | "resonator" =>
     let st ← resStrategyOf (← getStr (← field j "strategy"))
     let f ← getFloat (← field j "freq")
     let bw ← getFloat (← field j "bandwidth")
-    pure <| design (resonator st f bw) (resonatorContractOf st f bw)
+    pure <| design (resonator st f bw) (resonatorSpec st f bw)
   | "comb" =>
     let st ← getStr (← field j "strategy")
     let d ← getNat (← field j "delay")
